@@ -102,6 +102,11 @@ func c01Variants(c *Ctx, base *m.Address, other *m.Address) []c01Ident {
 		add("type-"+tn, func(p *m.PublicAddress) { p.Type = crop.KeyPairType(tn) })
 	}
 	add("key-bitflip", func(p *m.PublicAddress) { p.PublicKey[c.Rng.IntN(32)] ^= 1 << uint(c.Rng.IntN(8)) })
+	v = append(v, c01Ident{pub: func() m.PublicAddress {
+		p := base.PublicAddress
+		p.PublicKey = append(ed25519.PublicKey(nil), other.PublicKey...)
+		return p
+	}(), priv: other.PrivateKey, kind: "key-of-other-identity"})
 	for _, n := range []int{0, 1, 31, 33, 64} {
 		n := n
 		add(fmt.Sprintf("key-len%d", n), func(p *m.PublicAddress) {
@@ -325,6 +330,53 @@ func (e *c01Env) bindingViolations() []string {
 	return out
 }
 
+// viaHopRecordKnown presents the identity as a hop record for an address the router already has a
+// (genuine) record of; accepted = the announcement was handled without error.
+func (e *c01Env) viaHopRecordKnown(genuine *m.Address, id c01Ident, origin *m.Address) (accepted, panicked bool) {
+	_ = e.R.st.AddRouter(&genuine.PublicAddress)
+	body, _ := cbor.Marshal(&router.AnnouncePingMsg{Info: &m.RouterInfo{}, ReturnLabel: 5, Expires: time.Now().Add(10 * time.Minute)})
+	t := nextCraftTime()
+	base, err := craftPing(pingSpec{from: origin, dst: m.RouterAddress, msgType: frame.RouterHopPingDeprecated, pingType: "announce", body: body, seqTime: t})
+	if err != nil {
+		return false, false
+	}
+	pf, err := craftBuilder.ParseFrame(append([]byte(nil), base...), nil, 0)
+	if err != nil {
+		return false, false
+	}
+	ctxb := make([]byte, 16+8+64)
+	copy(ctxb[:16], origin.IP.AsSlice())
+	binary.BigEndian.PutUint64(ctxb[16:24], uint64(t.UnixMilli()))
+	copy(ctxb[24:], pf.AuthData())
+	mk := func(pub m.PublicAddress, priv ed25519.PrivateKey, next []byte) []byte {
+		att, _ := cbor.Marshal(router.AnnouncePingAttachment{Router: pub, Delay: 5, ForwardLabel: 7, ReturnLabel: 8, NextAttachment: next})
+		var sig []byte
+		if len(priv) == ed25519.PrivateKeySize {
+			sig, _ = priv.Sign(nil, att, &ed25519.Options{Context: string(ctxb)})
+		}
+		if len(sig) != 64 {
+			sig = make([]byte, 64)
+		}
+		return append(att, sig...)
+	}
+	inner := mk(id.pub, id.priv, nil)
+	outer := mk(e.P.id.PublicAddress, e.P.id.PrivateKey, inner)
+	res := e.R.inject(append(append([]byte(nil), base...), outer...), e.R.links[e.P.id.IP])
+	e.w.queue = nil
+	if res.panicked() {
+		return false, true
+	}
+	if len(res.routerErrs) == 0 {
+		return false, false
+	}
+	for _, he := range res.routerErrs {
+		if he != nil {
+			return false, false
+		}
+	}
+	return true, false
+}
+
 type peeringReq struct {
 	RouterVersion string          `cbor:"v,omitempty"`
 	Universe      string          `cbor:"u,omitempty"`
@@ -514,6 +566,33 @@ func runC01(c *Ctx) error {
 					code, stored = env.viaPeeringRequest(id, signer)
 				}
 				emit(entry, pid, code, stored)
+			}
+			// (5) the same identity as a hop record for an address the router ALREADY knows (genuinely):
+			// the record is accepted only if it is the genuine identity of that address
+			// (for a known address the router authenticates the record with the key it has stored and
+			// ignores the attached identity, so the forged records are signed by somebody else's key)
+			if id.pub.IP == base.IP {
+				env, err := newC01Env(c)
+				if err != nil {
+					return err
+				}
+				forged := id
+				if id.kind != "valid" {
+					forged.priv = other.PrivateKey
+				}
+				acc, pan := env.viaHopRecordKnown(base, forged, origin)
+				c.Eval()
+				c.Count("entry:hop-record-known-address")
+				c.NonTrivial(fmt.Sprintf("hop-record-known/%s/%v", id.kind, acc))
+				rep := map[string]any{"entry": "hop-record-known-address", "kind": id.kind, "identity": coqPub(&id.pub)}
+				switch {
+				case pan:
+					c.Violate(fmt.Sprintf("a %s hop record for a known address crashed the handler", id.kind), "crash-hop-record-known", rep)
+				case acc && id.kind != "valid":
+					c.Violate(fmt.Sprintf("a %s identity attached as a hop record for an address the router already knows, signed with a key that address is not derived from, was accepted", id.kind), "accept-hop-record-known", rep)
+				case !acc && id.kind == "valid":
+					c.Violate("the genuine hop record of a known router was rejected", "reject-valid-hop-record-known", rep)
+				}
 			}
 		}
 		c.Sample(map[string]any{"identity": base.IP.String(), "easing": base.Easing, "variants": len(vars)})
